@@ -878,6 +878,11 @@ Proof.
   destruct I' as (_ & (Hs' & _) & _). lia.
 Qed.
 
+Lemma StepM_catch : forall A (m : M A), StepM m -> StepM (catch m).
+Proof.
+  intros A m Hm w r w' HI H. unfold catch in H. destruct (m w) as [x w1] eqn:E. inversion H; subst. eapply Hm; eauto.
+Qed.
+
 Lemma StepM_count_logout : forall f, StepM (count_logout f).
 Proof. intros f w r w' HI H. apply (count_logout_spec f w r w' HI H). Qed.
 
@@ -892,7 +897,7 @@ Proof.
   apply StepM_bind; [apply StepM_of_RelM; relm|intros ok].
   destruct (negb ok); [apply StepM_of_RelM; relm|].
   apply StepM_bind; [|intros _; apply StepM_of_RelM; relm].
-  apply StepM_bind; [apply StepM_count_logout|intros _; apply StepM_of_RelM; relm].
+  apply StepM_bind; [apply StepM_catch; apply StepM_count_logout|intros _; apply StepM_of_RelM; relm].
 Qed.
 
 Lemma pm_plain_step : forall f w r w',
@@ -1629,7 +1634,7 @@ Proof.
   destruct (disconnect_disc _ _ _ _ (Inv_Out _ Ic) Edc) as [Erd Hdd]. subst rd.
   assert (Hhead : pm_head f w = (inl None, wd)).
   { unfold pm_head, process_logout. rewrite Ht. cbn [mtype_eqb].
-    cbv beta iota delta [bind get ret raise assert_ set_st set_rl upd]. rewrite Hd, Hn. cbn [negb].
+    cbv beta iota delta [bind get ret raise assert_ set_st set_rl upd catch]. rewrite Hd, Hn. cbn [negb].
     rewrite Ec, Edc. rewrite Hdd. reflexivity. }
   rewrite Hhead in E. unfold ret in E. inversion E; subst r w'. clear E.
   assert (Id : Inv wd) by (apply (Rel_Step _ _ Ic Rd)).
